@@ -1,6 +1,7 @@
 package main
 
 import (
+	"reflect"
 	"fmt"
 	"math/rand"
 	"sort"
@@ -36,6 +37,8 @@ type pOp struct {
 	ID       string         `json:"id,omitempty"`
 	Name     string         `json:"name,omitempty"`
 	ArgsPath string         `json:"argsPath,omitempty"`
+	// ArgsPathTmpl, when set, is the template text written into the action (it renders to ArgsPath against the data of the case)
+	ArgsPathTmpl string `json:"argsPathTmpl,omitempty"`
 	Args     map[string]any `json:"args,omitempty"` // []tpart | map[string][]tpart
 	Items    []string       `json:"items,omitempty"`
 	Query    string         `json:"query,omitempty"`
@@ -125,7 +128,9 @@ func (a *pAct) yamlMap() map[string]any {
 			m["define"] = map[string]any{"name": o.Name, "action": o.Body.yamlMap()}
 		case "call":
 			cm := map[string]any{"name": o.Name}
-			if o.ArgsPath != "" {
+			if o.ArgsPathTmpl != "" {
+				cm["argsPath"] = o.ArgsPathTmpl
+			} else if o.ArgsPath != "" {
 				cm["argsPath"] = o.ArgsPath
 			}
 			args := map[string]any{}
@@ -384,8 +389,32 @@ func runTree(a *pAct, data map[string]any) (evs []pEvent, failed bool, final any
 		pipeline.WithExtActions(map[string]pipeline.ActionFactory{"trace": &traceFactory{l: l}}))
 	var runErr error
 	panicked = guard(func() { runErr = ex.Execute(spec) })
+	// the same decoded tree run once more, by another executor with its own listener, its own
+	// extension actions and equal data: a tree is a description, not a run — same events, same outcome
+	rerunMismatch = ""
+	if panicked == "" {
+		l2 := &evListener{}
+		d2 := anyToContainer(data)
+		ex2 := pipeline.New(pipeline.WithListener(l2), pipeline.WithData(d2),
+			pipeline.WithExtActions(map[string]pipeline.ActionFactory{"trace": &traceFactory{l: l2}}))
+		var err2 error
+		pn2 := guard(func() { err2 = ex2.Execute(spec) })
+		switch {
+		case pn2 != "":
+			rerunMismatch = "running the same tree on a second executor panicked: " + pn2
+		case (err2 != nil) != (runErr != nil):
+			rerunMismatch = fmt.Sprintf("the same tree on a second executor: failed=%v, first run failed=%v", err2 != nil, runErr != nil)
+		case !reflect.DeepEqual(evStrings(l2.evs), evStrings(l.evs)):
+			rerunMismatch = fmt.Sprintf("the same tree on a second executor produced other events: %v", evStrings(l2.evs))
+		case !reflect.DeepEqual(nodeToAny(d2), nodeToAny(d)):
+			rerunMismatch = "the same tree on a second executor left other data"
+		}
+	}
 	return l.evs, runErr != nil, nodeToAny(d), panicked, nil
 }
+
+// set by runTree, read by execCase
+var rerunMismatch string
 
 // Dyck check: every OnBefore(a) is closed by exactly one OnAfter(a, err), properly nested
 func wellNested(evs []pEvent) string {
@@ -464,6 +493,9 @@ func execCase(kind string, a *pAct, data map[string]any, nontrivial bool) Case {
 	}
 	if w := wellNested(evs); w != "" && pn == "" {
 		fail = append(fail, "listener events are not well nested: "+w)
+	}
+	if rerunMismatch != "" {
+		fail = append(fail, rerunMismatch)
 	}
 	if failed && pn == "" {
 		// fail-fast: after the first failing OnAfter only OnAfter(.., err) events may follow
